@@ -70,7 +70,7 @@ class Callable:
             return 9000 + outer.count[9]
         return pf
 
-    def make(self, cid, ar, kl, rz=False):
+    def make(self, cid, ar, kl, rz=False, perm=False):
         self.count[cid] = 0
         outer = self
 
@@ -80,6 +80,12 @@ class Callable:
             if rz:
                 raise [KeyError, TypeError, ValueError, IndexError][cid % 4](f"callable #{cid} fails (scripted)")
             return cid * 1000 + outer.count[cid]
+        if perm and ar >= 2:
+            # parameters DECLARED in another order than x, y, z: arguments are still delivered positionally
+            # (the first evaluated argument to the first declared parameter)
+            if kl:
+                return [None, None, lambda klong, y, x: body(klong, y, x), lambda klong, z, x, y: body(klong, z, x, y)][ar]
+            return [None, None, lambda y, x: body(None, y, x), lambda z, x, y: body(None, z, x, y)][ar]
         if kl:
             return [lambda klong: body(klong), lambda klong, x: body(klong, x), lambda klong, x, y: body(klong, x, y),
                     lambda klong, x, y, z: body(klong, x, y, z)][ar]
@@ -122,8 +128,8 @@ def execute(hist):
                 shown[-1] = f"klong[{e['n']!r}] = {e['v']}"
                 k[e["n"]] = pyval(e["v"])
             elif op == "setpy":
-                shown[-1] = f"klong[{e['n']!r}] = <callable #{e['id']} ({'klong, ' if e['kl'] else ''}{', '.join('xyz'[:e['ar']])}){' raising' if e.get('rz') else ''}>"
-                k[e["n"]] = fac.make(e["id"], e["ar"], e["kl"], e.get("rz", False))
+                shown[-1] = f"klong[{e['n']!r}] = <callable #{e['id']} ({'klong, ' if e['kl'] else ''}{', '.join('xyz'[:e['ar']])}){' raising' if e.get('rz') else ''}{' declared in another order' if e.get('perm') and e['ar'] >= 2 else ''}>"
+                k[e["n"]] = fac.make(e["id"], e["ar"], e["kl"], e.get("rz", False), e.get("perm", False))
             elif op == "defkg":
                 shown[-1] = f"{e['n']}::{BODIES[e['body']]}"
                 k(f"{e['n']}::{BODIES[e['body']]}")
@@ -290,8 +296,8 @@ def run(tier, seed):
                       f"arguments, redefinition and deletion; non-trivial = contains an application")
     ev.sample({"history": meta[0][1]})
     ev.cov["checker_cmd"] = "tlc PyGen.tla ; tlc PyTrace.tla"
-    ev.assumptions += ["parameters of Python callables are x, y, z in this order (other orders / subsets such as (y) or (x, z): the statement "
-                       "'in positional order' is ambiguous for them)", "module import remapping (.py / .pyf) is not enumerated yet",
+    ev.assumptions += ["callables declared (y, x) / (z, x, y) receive the evaluated arguments positionally (first argument -> first declared "
+                       "parameter); subsets such as (y) or (x, z) are not enumerated", "module import remapping (.py / .pyf) is not enumerated yet",
                        "the behaviour of a handle after its name was deleted or rebound to a non-function is not judged"]
     return vd.finish()
 
